@@ -301,7 +301,7 @@ class C15(Harness):
     bounds = {'quick': {'families': ['set', 'pair', 'parsed', 'find'], 'pair_values': 'one-character values, prior states absent / present'}, 'thorough': {'families': ['set', 'pair', 'parsed', 'find'], 'pair_values': 'the full value domain and all four prior states in the pair family too'}}
     assumptions = ['the accessor table (146 setters with their getters) is read from the current source; the Debian field name each accessor stands for comes from the accessor name (snake_case -> Capitalised-Hyphenated) plus a 14-entry exception table',
                    'values: strings are 1-2 symbolic alphanumerics or empty; lists 0-2 one-letter items (for an empty string / list only the integrity of the paragraph is judged, not what the getter returns); relations "a" / "a, b" / "a (>= 1) | b" with symbolic names; versions "d.d"; sizes symbolic < 10^6; every enum variant; checksum lists of 1-2 symbolic triples; one-entry maps whose value may contain an equals sign; two fixed timestamps / dates; urls https://e.example/<letter> (url and chrono are evaluated natively on the concretised text)',
-                   'prior states of the paragraph: field absent between two foreign fields / present between them / present after a comment with extra spacing / absent with a single foreign field',
+                   'prior states of the paragraph: field absent between two foreign fields / present between them / present after a comment with extra spacing / absent with a single foreign field; for a pair whose source names a second field (a legacy or synonymous spelling, read from the function bodies) also: both fields present, in either order',
                    'pair family: every setter followed by the next setter of the same view (table order, cyclic), both getters read afterwards',
                    'parsed family: every getter whose return type has a documented raw form reads a hand-written field: strings, relations (one-line and folded), lists in the documented layouts (comma lists with ", " / "," / folded; space lists on one line and folded; line lists), yes/no, decimal sizes, versions, enum keywords, urls, timestamps, checksum lines; the DEP-3 description is the first line of a two-line value',
                    'find family: control files of 1-3 paragraphs, each a Source, Package or other paragraph (solver choice), names symbolic; source()/binaries() and add_source (on files without a source paragraph) / add_binary',
@@ -318,6 +318,10 @@ class C15(Harness):
         setters = [r for r in t if r['setter']]
         for i, r in enumerate(setters):
             cs.append({'fam': 'set', 'acc': r, 'field': expected_field(r), 'name': 'set:%s::%s' % (accessors_key(r), r['setter']), 'order': 0})
+            # a pair whose bodies name another field as well (a legacy or synonymous spelling): the paragraph carries both
+            for alias in r.get('literals', []):
+                if alias.lower() != expected_field(r).lower() and r['getter']:
+                    cs.append({'fam': 'set', 'acc': r, 'field': expected_field(r), 'alias': alias, 'name': 'alias:%s::%s+%s' % (accessors_key(r), r['setter'], alias), 'order': 0})
         by_type = {}
         for r in setters: by_type.setdefault(accessors_key(r), []).append(r)
         for k, rows in by_type.items():
@@ -357,15 +361,18 @@ class C15(Harness):
         if h[0] == 'copyright': return call_to_string(e, 'copyright', 'lossless::Copyright', h[1])
         return call_to_string(e, 'deb822', 'lossless::Deb822', h[1])
 
-    def base_text(self, e, r, field, kind_hint):
+    def base_text(self, e, r, field, kind_hint, alias=None):
         key = accessors_key(r)
         head = HEADS.get(key, '')
         old = OLD.get(kind_hint, 'old')
         if r['setter'] in ('set_description', 'set_long_description') and key == 'PatchHeader@lossless': old = 'old\n more'
         # the long description is the tail of the Description field: it is set on a header that has a description
-        state = (e.choose('prior', 2) + 1) if r['setter'] == 'set_long_description' else e.choose('prior', 2 if getattr(self, 'pairmode', False) else 4)
+        state = 4 if alias else (e.choose('prior', 2) + 1) if r['setter'] == 'set_long_description' else e.choose('prior', 2 if getattr(self, 'pairmode', False) else 4)
         oldv = old.replace('\n', '\n ')
-        if state == 0: body = 'X-Before: b\nX-After: a\n'
+        if alias:
+            state = 4
+            body = ('X-Before: b\n%s: %s\n%s: %s\nX-After: a\n' % ((alias, oldv, field, oldv) if e.choose('aorder', 2) else (field, oldv, alias, oldv)))
+        elif state == 0: body = 'X-Before: b\nX-After: a\n'
         elif state == 1: body = 'X-Before: b\n%s: %s\nX-After: a\n' % (field, oldv)
         elif state == 2: body = 'X-Before: b\n# about the field\n%s:   %s\nX-After: a\n' % (field, oldv)
         else: body = 'X-Before: b\n'
@@ -397,7 +404,7 @@ class C15(Harness):
         if case['fam'] == 'find': return self.run_find(e, case)
         r = case['acc']; field = case['field']
         self.pairmode = case['fam'] == 'pair' and not case.get('full')
-        text, state = self.base_text(e, r, field, self.kind_of(r))
+        text, state = self.base_text(e, r, field, self.kind_of(r), alias=case.get('alias'))
         x, h = self.open_view(e, r, o(text))
         before = self.doc_text(e, h)
         self.short = case['fam'] == 'pair' and not case.get('full')
@@ -567,7 +574,7 @@ class C15(Harness):
             return []
         v = []; ty = w['type'].split('::', 1)[1]
         steps = w['steps']; st = nat['states']
-        priors = ['absent', 'present', 'present-with-comment', 'absent-single-field']
+        priors = ['absent', 'present', 'present-with-comment', 'absent-single-field', 'present-with-alias']
         if nat.get('failed'):
             k = nat['failed']['step']; s = steps[k]['setter']
             return [('panic:%s:%s::%s:%s' % (classify_panic(nat['failed']['panic']), ty, s, priors[w['prior']]), '%s(%r) panics on %r: %s' % (s, steps[k]['args'], w['s'], nat['failed']['panic'][:150]))]
